@@ -14,8 +14,7 @@ variable {F : Type}
 theorem handleFeedback_error_cases {ops : FloatOps F} {s : State F} {now : Nat} {fb : Feedback F}
     {t : Trap} (hm : s.mode ≠ .awaitSend) (h : handleFeedback ops s now fb = .error t) :
     (t = .overflow ∧ fb.rateLimited = true ∧ ∃ e ∈ s.recvSet, now < e.ts) ∨
-    (t = .overflow ∧ ∃ t0, s.mode = .slowStart (some t0) ∧ lossInc ops s fb = false ∧
-      (now < t0 ∨ (ops.sToMs (rttOf ops s fb) ≤ now - t0 ∧ u32max < 2 * s.sendRate))) ∨
+    (t = .overflow ∧ ∃ t0, s.mode = .slowStart (some t0) ∧ lossInc ops s fb = false ∧ now < t0) ∨
     (t = .hang ∧ ∃ ld, s.mode = .slowStart ld ∧ lossInc ops s fb = true ∧
       tcpInv ops (rttOf ops s fb) (ssTarget ops s fb ld) bisectFuel ops.zero ops.one
         = .error .hang) := by
@@ -57,16 +56,11 @@ theorem handleFeedback_error_cases {ops : FloatOps F} {s : State F} {now : Nat} 
           by_cases h1 : now < t0
           · rw [if_pos h1] at h
             cases h
-            exact Or.inr (Or.inl ⟨rfl, t0, rfl, rfl, Or.inl h1⟩)
+            exact Or.inr (Or.inl ⟨rfl, t0, rfl, rfl, h1⟩)
           · rw [if_neg h1] at h
             by_cases h2 : now - t0 ≥ ops.sToMs (rttOf ops s fb)
             · rw [if_pos h2] at h
-              by_cases h3 : 2 * s.sendRate > u32max
-              · rw [if_pos h3] at h
-                cases h
-                exact Or.inr (Or.inl ⟨rfl, t0, rfl, rfl, Or.inr ⟨h2, h3⟩⟩)
-              · rw [if_neg h3] at h
-                cases h
+              cases h
             · rw [if_neg h2] at h
               cases h
 
@@ -116,15 +110,14 @@ theorem nofeedbackExpired_error_cases {ops : FloatOps F} {s : State F} {now : Na
           split at hc <;> cases hc
 
 /-- **Every trap of `step`, for an arbitrary state.** There is no `panic`, `index` or `assert`
-outcome; `overflow` needs time running backwards or `2 * sendRate > u32::MAX`; `unwrap` needs an
+outcome; `overflow` needs time running backwards (the slow-start doubling saturates); `unwrap` needs an
 equation-phase state without RTT or with an empty receive-rate set (unreachable, see `RateInv`);
 `hang` is the bisection running out of fuel. -/
 theorem step_error_cases {ops : FloatOps F} {s : State F} {now : Nat} {fb : Option (Feedback F)}
     {t : Trap} (h : step ops s now fb = .error t) :
     (t = .overflow ∧ ∃ fb', fb = some fb' ∧ fb'.rateLimited = true ∧ ∃ e ∈ s.recvSet, now < e.ts) ∨
     (t = .overflow ∧ ∃ fb' t0, fb = some fb' ∧ s.mode = .slowStart (some t0) ∧
-      lossInc ops s fb' = false ∧
-      (now < t0 ∨ (ops.sToMs (rttOf ops s fb') ≤ now - t0 ∧ u32max < 2 * s.sendRate))) ∨
+      lossInc ops s fb' = false ∧ now < t0) ∨
     (t = .unwrap ∧ fb = none ∧ (∃ exp, s.nofeedbackExp = some exp ∧ exp ≤ now) ∧
       ∃ tcp, s.mode = .eqn tcp ∧ (s.rttS = none ∨ s.recvSet = [])) ∨
     (t = .hang ∧ ∃ fb' ld, fb = some fb' ∧ s.mode = .slowStart ld ∧ lossInc ops s fb' = true ∧
